@@ -410,12 +410,12 @@ pub fn gen_file(rng: &mut Rng, n: usize, thorough: bool) -> Vec<Case> {
 pub fn gen_bigfile(rng: &mut Rng, n: usize, thorough: bool) -> Vec<Case> {
     let mut out = vec![];
     let counts: Vec<(usize, usize)> = if thorough {
-        vec![(0xfeff, 3), (0xff00, 3), (0xff01, 2), (0xff20, 1), (5, 0xfffe), (5, 0xffff), (5, 0x10000), (3, 0x10010), (0xff05, 0xffff)]
+        vec![(0xfeff, 3), (0xff00, 3), (0xff01, 2), (0xff20, 1), (5, 0xfffe), (5, 0xffff), (5, 0x10000), (3, 0x10010), (0xff05, 0xffff), (0xff04, 1)]
     } else {
-        vec![(0xff00, 2), (4, 0xffff), (0xfeff, 1), (3, 0x10003)]
+        vec![(0xff00, 2), (4, 0xffff), (0xfeff, 1), (3, 0x10003), (0xff04, 1)]
     };
     for (k, (nsec, nseg)) in counts.into_iter().enumerate() {
-        if k >= n.max(1) * 9 { break; }
+        if k >= n.max(1) * 10 { break; }
         let is64 = rng.below(2) == 0;
         let le = rng.below(2) == 0;
         let mut o = Obj::new(is64, le);
@@ -438,6 +438,18 @@ pub fn gen_bigfile(rng: &mut Rng, n: usize, thorough: bool) -> Vec<Case> {
         for i in [0u64, np.saturating_sub(1), np, 0xfffe, 0xffff, 0x10000] { qs.push(format!("P{}", i)); }
         let fc = FileCase { obj: o, built, queries: qs, kinds: vec!["big"] };
         out.push((format!("file any {} {}", fc.queries.join(","), hex(&fc.built.bytes)), truth_ann(&fc, true)));
+        // the same file with the section-name string table's index written *plainly* into e_shstrndx although it lies in
+        // the reserved range 0xff00..0xfffe, and shdr[0].sh_link left 0: only the value 0xffff (SHN_XINDEX) is the escape
+        let last = (ns as u64).saturating_sub(1);
+        if last >= 0xff00 && last < 0xffff {
+            let field = |n: &str| fc.built.fields.iter().find(|f| f.name == n).cloned();
+            if let (Some(fa), Some(fb)) = (field("e_shstrndx"), field("s0.sh_link")) {
+                let mut bytes = fc.built.bytes.clone();
+                crate::enc::put_at(&mut bytes, fa.off, le, fa.width, last);
+                crate::enc::put_at(&mut bytes, fb.off, le, fb.width, 0);
+                out.push((format!("file any {} {}", fc.queries.join(","), hex(&bytes)), "clean=0|big|plain-shstrndx".into()));
+            }
+        }
     }
     out
 }
